@@ -73,6 +73,33 @@ R8    transform is a function of its arguments only.  (3) terms: which request-f
       the call - a module-level / class-level binding, an instance attribute (not a property), a parameter default
       evaluated at definition time.  The last kind is a violation (state leaks from one produced message into the next
       and into messages already returned); an origin that cannot be classified is undecided.
+R9    a termination location is read back exactly.  (5) one case per placement of the reference placement table (print/body,
+      header[arg], parameter[arg], uri_append/uri); (3) the final term transform leaves in the location - the field local for
+      body / uri, the value of `%setitem(field, arg, value)` / `%mut_setdefault(field, arg, value)` for the keyed ones - is
+      flattened into its concatenation operands and compared with the term recover's accumulator takes from the location.
+      The initial request's fields are free symbols (`request.uri` ...): nothing is assumed about them, in particular not
+      that they are empty (the quantifier says "any initial request"); an operand counts as empty only if it is a constant
+      empty string or a path fact says so (2).  Transform classes: *replace* (the only non-empty operand is the
+      accumulator), *keep* (besides the accumulator there is the location's content before the step - the field local,
+      `field[arg]`, `field.get(arg[, d])` - or a non-empty constant; `setdefault` keeps an existing entry; a path on which
+      nothing is written keeps everything).  Recover classes: *whole* (`http.<field>`, `http.<field>[arg]`,
+      `http.<field>.get(arg[, d])`) or anything else.  replace + whole -> discharged; keep + whole -> VIOLATED (recover
+      returns old (+) data, which differs from data for every non-empty old: lemma concat-length); keep or replace with a
+      recover term that is not the whole location (a slice that may or may not remove the kept part: recover is not given
+      the initial request) -> undecided; a transform term of any other shape, an opaque path, a field local that does not
+      start as the request's field (R3 reports that) -> undecided.  On the unchanged tree `uri_append` is keep + whole
+      (`uri + data` / `http.uri`): a genuine defect recorded in known_findings.json under the construct text
+      `c2.py::HttpDataTransform.recover::uri_append reads back only what was placed`.
+      Lemmas: concat-length len(a + b) == len(a) + len(b), so a + b == b only if a is empty (same for b + a); join
+      SEP.join([x1, .., xn]) == x1 + SEP + .. + xn; or-empty `x or b""` == x for a bytes x.
+      Second obligation per placement, `<step> payload is taken by position, not by searching its bytes`: (1) no method
+      of the finite set _CONTENT_CUTS (partition / split / strip / removeprefix / replace / find / index families) is
+      applied to a term containing `http.<field>` in the term recover's accumulator takes.  Lemma content-cut: the result of
+      each of them depends on where, or whether, some bytes occur in the receiver; the placed payload is an arbitrary byte
+      string (outermost encoder base64 with '/', '+', '=' in its alphabet, or no encoder; free prepend / append arguments),
+      so payloads containing the searched bytes and payloads lacking them both exist and for one of the two kinds the part
+      cut out is not the payload.  Present -> VIOLATED (a fresh construct, distinct from the known finding above); read not
+      followed -> undecided.
 """
 
 from __future__ import annotations
@@ -1324,13 +1351,19 @@ def run(ctx):
         "location, keep static decorations away from the payload, mirror prepend/append sides (including the `x[:-n]` "
         "zero hazard), use one mask length, bind build selectors to the like-named C2Data fields, replace the payload on "
         "every path of a build step (each build block carries only its own field), and update in place only containers of "
-        "the caller's initial request or created during the call (no state shared between calls).  Dispatch through constant "
+        "the caller's initial request or created during the call (no state shared between calls), and read each termination "
+        "location back exactly: where transform leaves <content of the initial request> + payload in a location (an update that "
+        "keeps the old content - the initial request's fields are free symbols, never assumed empty) recover must not take the "
+        "whole location for the payload, nor cut the payload out by searching the location's bytes (partition / split / strip / "
+        "find ...: the payload is an arbitrary byte string).  Dispatch through constant "
         "lookup tables of callables (module / class level dict displays) is followed by folding the lookup for the literal "
         "step name and binding the call's arguments into the entry (lambda, function reference, one-expression helper)."
     )
     rep.not_decided = ["round-trip equality for all programs and payloads (only the per-step structural necessary conditions are decided)",
                        "correctness of the codecs themselves (base64 module, utils.netbios_*, utils.xor bodies)",
-                       "uri_append recovering the whole URI (value-level)",
+                       "whether a recover that takes only a part of a termination location (a slice of http.uri ...) removes exactly what transform kept there "
+                       "(recover is not given the initial request): R9 is undecided on such shapes",
+                       "programs with two placements into the same location (two uri_append / print steps): only one placement step is analysed at a time",
                        "dispatchers with nested loops / try / with / match, or dispatching through a table that is not a constant dict display bound once "
                        "(computed tables, tables of method names, getattr dispatch): the affected steps are reported undecided",
                        "aliasing between the returned request and the caller's initial request (transform writes into the caller's params/headers dicts by design)"]
@@ -1347,6 +1380,10 @@ def run(ctx):
         "lemma split: partition(s)[0]/[2] and split(s, 1)[0]/[1] split at the first s, rpartition/rsplit at the last",
         "lemmas slice-drop / neg-zero / or-none: x[:len(x)-n] drops the last n bytes for 0 <= n <= len(x); x[:-n] does so only for n > 0 (x[:-0] == b''); x[:-n or None] for all n >= 0",
         "lemma filler: b'c' * n and bytes(n) have length n for an int n >= 0",
+        "lemmas concat-length / join / or-empty (R9): len(a + b) == len(a) + len(b), hence a + b == b only for an empty a; SEP.join([x1..xn]) == x1 + SEP + .. + xn; "
+        "`x or b''` == x for a bytes x; dict.setdefault(k, v) stores v only when k is absent; `quantifier: any initial request` - request.uri / body / headers[k] / params[k] may be non-empty",
+        "lemma content-cut (R9): bytes.partition/rpartition/split/rsplit/splitlines/strip/lstrip/rstrip/removeprefix/removesuffix/replace/translate/find/rfind/index/rindex/expandtabs "
+        "depend on where or whether some bytes occur in the receiver; the placed payload ranges over all byte strings",
         "lemma key-length: n.to_bytes(k, ..), os.urandom(k), utils.pack(.., size=k) have length k; struct.pack(fmt, ..) has length struct.calcsize(fmt)",
     ]
     T = ctx.repo.func("c2.HttpDataTransform.transform")
@@ -1391,6 +1428,7 @@ def run(ctx):
     r6(ctx, T, R, tt, rt)
     r7(ctx, T, R, tt, rt, _ARG, _ARG)
     r8(ctx, T, tt)
+    r9(ctx, T, R, tt, rt, _ARG, _ARG)
 
 
 def _fields(tt: _Side) -> dict:
@@ -2396,6 +2434,199 @@ def r8(ctx, T, tt):
         ctx.undecided("R8", "ALIAS", T, text, "; ".join(sorted(set(unknown))))
     else:
         ctx.ob("R8", "ALIAS", T, text, True, "containers updated in place: " + "; ".join(sorted(set(notes))))
+
+
+# ---------------------------------------------------------------------------------------------------------------- R9
+def _cat_operands(e: ast.AST, depth: int = 0) -> List[ast.AST]:
+    """Operands of a byte-string concatenation term, left to right: `a + b`, `SEP.join([a, b])` / `SEP.join((a, b))` with a
+    constant SEP (lemma join: SEP.join([x1..xn]) == x1 + SEP + x2 + .. + xn), casts and `x or b""` (lemma or-empty: for a
+    bytes x, `x or b""` == x) removed.  Anything else is one operand."""
+    e = strip_cast(e)
+    if depth > 8:
+        return [e]
+    if isinstance(e, ast.Call) and dotted(e.func) in ("bytes", "bytearray") and len(e.args) == 1 and not e.keywords:
+        return _cat_operands(e.args[0], depth + 1)
+    if isinstance(e, ast.BinOp) and isinstance(e.op, ast.Add):
+        return _cat_operands(e.left, depth + 1) + _cat_operands(e.right, depth + 1)
+    if isinstance(e, ast.BoolOp) and isinstance(e.op, ast.Or) and len(e.values) == 2 and _cv(e.values[1]) in (b"", bytearray()):
+        return _cat_operands(e.values[0], depth + 1)
+    if isinstance(e, ast.Call) and isinstance(e.func, ast.Attribute) and e.func.attr == "join" and len(e.args) == 1 and not e.keywords \
+            and isinstance(_cv(e.func.value), bytes) and isinstance(e.args[0], (ast.List, ast.Tuple)) \
+            and not any(isinstance(x, ast.Starred) for x in e.args[0].elts):
+        out: List[ast.AST] = []
+        for i, x in enumerate(e.args[0].elts):
+            if i and _cv(e.func.value):
+                out.append(e.func.value)
+            out.extend(_cat_operands(x, depth + 1))
+        return out
+    return [e]
+
+
+# bytes methods whose result depends on where (or whether) some bytes occur in the receiver: applied to a location that holds an
+# arbitrary payload they cannot cut the payload out for every payload (lemma content-cut, see R9)
+_CONTENT_CUTS = {"partition", "rpartition", "split", "rsplit", "splitlines", "strip", "lstrip", "rstrip", "removeprefix", "removesuffix",
+                 "replace", "translate", "find", "rfind", "index", "rindex", "expandtabs"}
+
+
+def _known_empty(p: _Path, e: ast.AST) -> bool:
+    """Is the value known to be empty on this path (a constant empty string, or a path fact `not e` / `e == b""` / `len(e) == 0`)?"""
+    v = _cv(e)
+    if v is not _NC:
+        return isinstance(v, (bytes, bytearray, str)) and len(v) == 0
+    if p.fact(e) is False:
+        return True
+    ln = ast.Call(func=_name("len"), args=[copy.deepcopy(e)], keywords=[])
+    if p.fact(ln) is False:
+        return True
+    for l, r in ((e, ast.Constant(value=b"")), (ln, ast.Constant(value=0))):
+        if p.fact(ast.Compare(left=copy.deepcopy(l), ops=[ast.Eq()], comparators=[r])) is True:
+            return True
+    return False
+
+
+def _old_content(e: ast.AST, target: str, key: Optional[ast.AST]) -> bool:
+    """Does the term denote what the location held before the step: the field local itself (unkeyed location), or
+    `field[key]` / `field.get(key[, default])` / `field.pop(key[, default])` for the keyed one?"""
+    e = strip_cast(e)
+    if key is None:
+        return _is(e, target)
+    if isinstance(e, ast.Subscript) and not isinstance(e.slice, ast.Slice) and _is(e.value, target):
+        return src(e.slice) == src(key)
+    if isinstance(e, ast.Call) and isinstance(e.func, ast.Attribute) and e.func.attr in ("get", "pop") and 1 <= len(e.args) <= 2 \
+            and not e.keywords and _is(e.func.value, target):
+        return src(e.args[0]) == src(key)
+    return False
+
+
+def _placed(p: _Path, v: ast.AST, target: str, acc: str, tval: str, keyed: bool):
+    """Classify the term a placement step leaves in its location.  Returns (kind, description):
+    "replace" - the location holds exactly the payload afterwards;
+    "keep"    - the location holds the payload concatenated with something that is not part of it and not known to be empty
+                (what the location held before, a non-empty constant), or keeps what it held (setdefault);
+    "?"       - not one of the recognised term shapes."""
+    key = None
+    if keyed:
+        if isinstance(v, ast.Call) and dotted(v.func) == "%mut_setdefault" and len(v.args) == 3 and _is(v.args[0], target):
+            if _is(v.args[1], tval) and _is(v.args[2], acc):
+                return "keep", f"`setdefault` stores the payload only when the initial request has no {target}[argument]; an entry that is there stays"
+            return "?", f"{target} updated as {src(v)}"
+        si = _setitem(v)
+        if si is None or not _is(si[0], target) or not _is(si[1], tval):
+            return "?", f"{target} updated as {src(v)}"
+        key, v = si[1], si[2]
+    ops = _cat_operands(v)
+    pos = [i for i, o in enumerate(ops) if _is(o, acc)]
+    if len(pos) != 1 or any(_mentions(o, acc) for i, o in enumerate(ops) if i != pos[0]):
+        return "?", f"the value placed is {src(v)}: not the payload / a concatenation with the payload"
+    rest = [o for i, o in enumerate(ops) if i != pos[0] and not _known_empty(p, o)]
+    if not rest:
+        return "replace", src(v)
+    old = [o for o in rest if _old_content(o, target, key)]
+    consts = [o for o in rest if isinstance(_cv(o), (bytes, bytearray))]
+    where = f"{target}[argument]" if keyed else target
+    if old:
+        return "keep", f"the location becomes {src(v)}: what the initial request (or an earlier step) put in {where} stays in front of / behind the payload"
+    if consts:
+        return "keep", f"the location becomes {src(v)}: the constant {src(consts[0])} is stored with the payload"
+    return "?", f"the value placed is {src(v)}"
+
+
+def r9(ctx, T, R, tt, rt, tval, rval):
+    """A termination location is read back exactly: if transform leaves `old(P) (+) data` in location P (an update that keeps
+    the initial request's content) recover must not take the whole of P for the payload."""
+    fld = _ST.get("fld") or _fields(tt)
+    http = _ST.get("http") or params(R.node)[1]
+    fvars: Dict[str, str] = fld["vars"]
+    for step, fname in tables.PLACEMENTS.items():
+        keyed = fname in ("headers", "params")
+        tps, rps = _normal(tt.paths(step)), _normal(rt.paths(step))
+        if not tps or not rps:
+            continue  # not handled on one side: R1
+        text = f"{step} reads back only what was placed"
+        loc = f"{fname}[argument]" if keyed else fname
+        problems, unknown = [], []
+        if _opaque(tps) or _opaque(rps):
+            unknown.append(f"not modelled: {_opaque(tps) + _opaque(rps)}")
+        target = fvars.get(fname)
+        iv = fld["init"].get(fname)
+        if target is None:
+            unknown.append(f"the local carrying request.{fname} was not located")
+        elif not (isinstance(iv, ast.Attribute) and iv.attr == fname):
+            # the location does not start as the initial request's field (R3 "request fields" reports that): what it holds
+            # before the step is then not the free symbol request.<field> this rule argues with
+            unknown.append(f"the local returned as {fname} starts as {src(iv) if iv is not None else 'an unknown value'}, not as the initial request's {fname}")
+        # ---- transform: the term left in the location
+        kept, replaced, dropped = [], 0, []
+        for p in tps if not unknown else []:
+            if p.opaque:
+                continue
+            v = tt.changed(p).get(target)
+            if v is None or not _mentions(v, tt.acc):
+                cond = ", ".join(f"{src(e)} is {'true' if t else 'false'}" for e, t in p.fnodes) or "always"
+                dropped.append(f"nothing is placed in {loc} when {cond}: the location keeps what it held")
+                continue
+            kind, desc = _placed(p, v, target, tt.acc, tval, keyed)
+            if kind == "replace":
+                replaced += 1
+            elif kind == "keep":
+                kept.append(desc)
+            else:
+                unknown.append(f"transform: {desc}")
+        if not unknown and not kept and not replaced:
+            unknown.append(f"no path of transform places the payload in {loc} (see R3)")
+            dropped = []
+        # ---- recover: the term taken from the location
+        whole, partial = 0, []
+        cuts, located = [], 0
+        for p in rps:
+            if p.opaque:
+                continue
+            v = p.env.get(rt.acc)
+            if v is None or not any(isinstance(n, ast.Attribute) and dotted(n) == f"{http}.{fname}" for n in ast.walk(v)):
+                continue  # the location is not read on this path: R3
+            located += 1
+            cuts.extend(src(n) for n in ast.walk(v) if isinstance(n, ast.Call) and isinstance(n.func, ast.Attribute) and n.func.attr in _CONTENT_CUTS
+                        and any(isinstance(m, ast.Attribute) and dotted(m) == f"{http}.{fname}" for m in ast.walk(n.func.value)))
+        ptext = f"{step} payload is taken by position, not by searching its bytes"
+        if cuts:
+            ctx.ob("R9", "AGREE", R, ptext, False,
+                   f"recover cuts the payload out of {http}.{loc} with {sorted(set(cuts))}: where the cut falls depends on the bytes of the location, and the placed payload is an "
+                   "arbitrary byte string (the last encoder may be base64 - its alphabet has '/', '+', '=' - or none at all, and prepend/append arguments are free), "
+                   "so it may contain the bytes searched for, or lack them: for such payloads the part cut out is not the payload")
+        elif not located or _opaque(rps):
+            ctx.undecided("R9", "AGREE", R, ptext, f"recover's read of {http}.{loc} could not be followed (not modelled: {_opaque(rps)})")
+        else:
+            ctx.ob("R9", "AGREE", R, ptext, True, f"no search / strip / split / replace is applied to {http}.{loc}: what recover takes is determined by positions only")
+        for p in rps if not unknown else []:
+            if p.opaque:
+                continue
+            v = strip_cast(p.env.get(rt.acc))
+            if keyed:
+                is_whole = (isinstance(v, ast.Subscript) and not isinstance(v.slice, ast.Slice) and dotted(v.value) == f"{http}.{fname}" and _is(v.slice, rval)) or (
+                    isinstance(v, ast.Call) and isinstance(v.func, ast.Attribute) and v.func.attr == "get" and dotted(v.func.value) == f"{http}.{fname}"
+                    and 1 <= len(v.args) <= 2 and not v.keywords and _is(v.args[0], rval))
+            else:
+                is_whole = dotted(v) == f"{http}.{fname}"
+            if is_whole:
+                whole += 1
+            else:
+                partial.append(src(v))
+        if not unknown:
+            if whole and (kept or dropped):
+                for d in sorted(set(kept + dropped)):
+                    problems.append(f"{d}; recover takes the whole of {http}.{loc} for the payload and so returns something other than the placed payload "
+                                    f"(for every initial request whose {loc} is not empty, when it is the request's content that stays; "
+                                    "recover is not given the initial request and cannot remove it)")
+            if partial:
+                unknown.append(f"recover takes {sorted(set(partial))} from the location: whether that is exactly the payload "
+                               + ("(the kept content removed) " if kept else "") + "is not decided"
+                               + (" (the cut itself is reported by the position obligation)" if cuts else ""))
+        if problems:
+            ctx.ob("R9", "AGREE", R, text, False, "; ".join(sorted(set(problems + unknown))))
+        elif unknown:
+            ctx.undecided("R9", "AGREE", R, text, "; ".join(sorted(set(unknown))))
+        else:
+            ctx.ob("R9", "AGREE", R, text, True, f"transform replaces {loc} by the payload (nothing of the initial request stays in the location); recover reads the whole of {http}.{loc}")
 
 
 def _orient(e: ast.AST, p: _Path, steps: str, depth: int = 0) -> Optional[int]:
